@@ -66,6 +66,98 @@ func src(fset *token.FileSet, n ast.Node) string {
 }
 
 // depth of function-literal nesting at a site: "/0" = in the function itself, "/1" = inside one closure, ...
+// localsOf: the names a function declares (receiver, parameters, results, :=, var, range, closure parameters),
+// numbered in order of first declaration — so that renaming a local does not change an inventory entry
+func localsOf(fd *ast.FuncDecl) map[string]int {
+	loc := map[string]int{}
+	add := func(id *ast.Ident) {
+		if id == nil || id.Name == "_" {
+			return
+		}
+		if _, ok := loc[id.Name]; !ok {
+			loc[id.Name] = len(loc) + 1
+		}
+	}
+	fields := func(fl *ast.FieldList) {
+		if fl == nil {
+			return
+		}
+		for _, f := range fl.List {
+			for _, n := range f.Names {
+				add(n)
+			}
+		}
+	}
+	fields(fd.Recv)
+	fields(fd.Type.Params)
+	fields(fd.Type.Results)
+	ast.Inspect(fd.Body, func(n ast.Node) bool {
+		switch v := n.(type) {
+		case *ast.AssignStmt:
+			if v.Tok == token.DEFINE {
+				for _, l := range v.Lhs {
+					if id, ok := l.(*ast.Ident); ok {
+						add(id)
+					}
+				}
+			}
+		case *ast.RangeStmt:
+			if v.Tok == token.DEFINE {
+				if id, ok := v.Key.(*ast.Ident); ok {
+					add(id)
+				}
+				if id, ok := v.Value.(*ast.Ident); ok {
+					add(id)
+				}
+			}
+		case *ast.ValueSpec:
+			for _, n := range v.Names {
+				add(n)
+			}
+		case *ast.FuncLit:
+			fields(v.Type.Params)
+			fields(v.Type.Results)
+		}
+		return true
+	})
+	return loc
+}
+
+// normSrc prints a node with the function's local names replaced by $1, $2, ... (field and method names after a
+// dot are kept)
+func normSrc(fset *token.FileSet, n ast.Node, loc map[string]int) string {
+	type saved struct {
+		id   *ast.Ident
+		name string
+	}
+	var undo []saved
+	var walk func(n ast.Node)
+	walk = func(n ast.Node) {
+		ast.Inspect(n, func(m ast.Node) bool {
+			switch v := m.(type) {
+			case *ast.SelectorExpr:
+				walk(v.X)
+				return false
+			case *ast.KeyValueExpr:
+				walk(v.Value)
+				return false
+			case *ast.Ident:
+				if k, ok := loc[v.Name]; ok {
+					undo = append(undo, saved{v, v.Name})
+					v.Name = "$" + strconv.Itoa(k)
+				}
+			}
+			return true
+		})
+	}
+	walk(n)
+	out := src(fset, n)
+	for _, u := range undo {
+		u.id.Name = u.name
+	}
+	return out
+}
+
 func depth(lits []*ast.FuncLit) string { return "/" + strconv.Itoa(len(lits)) }
 
 type inv struct{ items []string }
@@ -173,6 +265,7 @@ func main() {
 						fname = strings.TrimPrefix(src(fset, fd.Recv.List[0].Type), "*") + "." + fname
 					}
 					where := rel + ":" + fname
+					loc := localsOf(fd)
 					// parameters / receiver declared with a non-map type shadow package-level map names
 					notMap := map[string]bool{}
 					var plist []*ast.Field
@@ -224,7 +317,7 @@ func main() {
 								}
 							case *ast.AssignStmt:
 								if registryFuncs[where] {
-									registrySites.add(where + " @" + strconv.Itoa(fset.Position(v.Pos()).Line-fset.Position(fd.Pos()).Line) + ": " + src(fset, v))
+									registrySites.add(where + " @" + strconv.Itoa(fset.Position(v.Pos()).Line-fset.Position(fd.Pos()).Line) + ": " + normSrc(fset, v, loc))
 								}
 								for _, l := range v.Lhs {
 									if ix, ok := l.(*ast.IndexExpr); ok {
@@ -321,33 +414,33 @@ func main() {
 								goStmt.add(where + depth(lits) + ": select")
 							case *ast.IfStmt:
 								if guardFuncs[where] {
-									guardSites.add(where + ": if " + src(fset, v.Cond))
+									guardSites.add(where + ": if " + normSrc(fset, v.Cond, loc))
 								}
 								if registryFuncs[where] {
-									c := src(fset, v.Cond)
+									c := normSrc(fset, v.Cond, loc)
 									if v.Init != nil {
-										c = src(fset, v.Init) + "; " + c
+										c = normSrc(fset, v.Init, loc) + "; " + c
 									}
 									registrySites.add(where + " @" + strconv.Itoa(fset.Position(v.Pos()).Line-fset.Position(fd.Pos()).Line) + ": if " + c)
 								}
 							case *ast.CaseClause:
 								if guardFuncs[where] {
 									for _, e := range v.List {
-										guardSites.add(where + ": case " + src(fset, e))
+										guardSites.add(where + ": case " + normSrc(fset, e, loc))
 									}
 								}
 							case *ast.ForStmt:
 								if guardFuncs[where] && v.Cond != nil {
-									guardSites.add(where + ": for " + src(fset, v.Cond))
+									guardSites.add(where + ": for " + normSrc(fset, v.Cond, loc))
 								}
 							case *ast.SliceExpr:
 								if sliceFiles[rel] {
-									sliceSites.add(where + ": " + src(fset, v))
+									sliceSites.add(where + ": " + normSrc(fset, v, loc))
 								}
 							case *ast.IndexExpr:
 								if sliceFiles[rel] {
 									if nm := lastName(v.X); !(nm != "" && mapNames[nm] && !notMap[nm]) {
-										sliceSites.add(where + ": " + src(fset, v))
+										sliceSites.add(where + ": " + normSrc(fset, v, loc))
 									}
 								}
 							case *ast.CallExpr:
